@@ -47,6 +47,10 @@ KIND = {
     "R07.11": "W",
     "R18.12": "S",
     "R17.7": "W",
+    "R13.4": "W",
+    "R17.8": "W", "R17.9": "W",
+    "R18.13": "W",
+    "R01.13": "W",
     "SELF": "self-validation of the checker on single-edit variants of the current tree",
 }
 NAMES = {"S": "structural / dataflow analysis of the resolved program (all inputs)",
